@@ -511,37 +511,23 @@ impl<'a> From<Piece<'a>> for Chunk {
                     }
 
                     let key = match formatter.args.first() {
-                        Some(arg) => {
-                            if let Some(arg) = arg.first() {
-                                match arg {
-                                    Piece::Text(key) => key.to_owned(),
-                                    Piece::Error(ref e) => return Chunk::Error(e.clone()),
-                                    _ => return Chunk::Error("invalid MDC key".to_owned()),
-                                }
-                            } else {
-                                return Chunk::Error("invalid MDC key".to_owned());
-                            }
-                        }
+                        Some(arg) => match text_arg(arg, "invalid MDC key") {
+                            Ok(key) => key,
+                            Err(chunk) => return chunk,
+                        },
                         None => return Chunk::Error("missing MDC key".to_owned()),
                     };
 
                     let default = match formatter.args.get(1) {
-                        Some(arg) => {
-                            if let Some(arg) = arg.first() {
-                                match arg {
-                                    Piece::Text(key) => key.to_owned(),
-                                    Piece::Error(ref e) => return Chunk::Error(e.clone()),
-                                    _ => return Chunk::Error("invalid MDC default".to_owned()),
-                                }
-                            } else {
-                                return Chunk::Error("invalid MDC default".to_owned());
-                            }
-                        }
-                        None => "",
+                        Some(arg) => match text_arg(arg, "invalid MDC default") {
+                            Ok(default) => default,
+                            Err(chunk) => return chunk,
+                        },
+                        None => String::new(),
                     };
 
                     Chunk::Formatted {
-                        chunk: FormattedChunk::Mdc(key.into(), default.into()),
+                        chunk: FormattedChunk::Mdc(key, default),
                         params: parameters,
                     }
                 }
@@ -567,6 +553,23 @@ impl<'a> From<Piece<'a>> for Chunk {
             Piece::Error(err) => Chunk::Error(err),
         }
     }
+}
+
+// An argument that must be plain text. Escaped characters split the text into
+// several pieces, which are concatenated; anything else is an error.
+fn text_arg(arg: &[Piece], invalid: &str) -> Result<String, Chunk> {
+    if arg.is_empty() {
+        return Err(Chunk::Error(invalid.to_owned()));
+    }
+    let mut text = String::new();
+    for piece in arg {
+        match *piece {
+            Piece::Text(t) => text.push_str(t),
+            Piece::Error(ref e) => return Err(Chunk::Error(e.clone())),
+            Piece::Argument { .. } => return Err(Chunk::Error(invalid.to_owned())),
+        }
+    }
+    Ok(text)
 }
 
 fn no_args(arg: &[Vec<Piece>], params: Parameters, chunk: FormattedChunk) -> Chunk {
